@@ -21,6 +21,10 @@ pub struct Case {
     pub halted: bool,
     pub pc: u16,
     pub steps: u16,
+    /// 0: SP = 0xF000; 1 / 2: SP = IM 2 table entry + 1 / + 2, so that the pushed return address
+    /// lands on the entry that is read next (the Z80 pushes first)
+    #[serde(default)]
+    pub sp_on_vector: u8,
 }
 
 /// instructions whose effect on control flow and on interrupt state does not depend on ALU flags
@@ -96,6 +100,7 @@ pub fn case_strategy(max_instr: usize) -> impl Strategy<Value = Case> {
                 halted,
                 pc,
                 steps,
+                sp_on_vector: if pc % 6 == 0 { 1 + (pc / 6 % 2) as u8 } else { 0 },
             }
         })
 }
@@ -120,7 +125,10 @@ pub fn check(c: &Case, rec: &mut Rec) -> Result<(), String> {
     let st = CpuState {
         regs: RegFile {
             pc: c.pc,
-            sp: 0xF000,
+            sp: match c.sp_on_vector % 3 {
+                0 => 0xF000,
+                k => ((((c.i_reg as u16) << 8) | c.int_byte as u16).wrapping_add(k as u16)),
+            },
             i: c.i_reg,
             im: c.im % 3,
             iff1: c.iff1,
